@@ -5,7 +5,7 @@ import typing as t
 
 from .. import taps  # noqa: F401
 from .. import blobfuzz
-from ..core import Ctx, MachineryError
+from ..core import SPEC, Ctx, MachineryError
 from ..tlc import require_ok, run_tlc
 from ..tracecheck import validate
 
@@ -17,7 +17,7 @@ def run(ctx: Ctx) -> int:
     require_ok(r, "Blob tamper model")
     ctx.add_tlc(r, "Blob.tla: 15 field classes x 5 tamper kinds, every path of <= 2 tampers, both layouts: NoForgery")
     cfg = ctx.rundir / "emit.cfg"
-    cfg.write_text(open(ctx.rundir.parent.parent / "spec" / "MC_Blob_tamper.cfg").read().replace("INVARIANT NoForgery", "CONSTRAINT EmitTamper\nINVARIANT NoForgery"))
+    cfg.write_text(open(SPEC / "MC_Blob_tamper.cfg").read().replace("INVARIANT NoForgery", "CONSTRAINT EmitTamper\nINVARIANT NoForgery"))
     em = run_tlc("MC_Blob", str(cfg), rundir=ctx.rundir, workers=4, tag="emit")
     paths: dict[tuple, list[str]] = {}
     for c in em.cases("CASE"):
